@@ -99,6 +99,7 @@ def gen_program(ctx, rng, n):
 FOREIGN_RECORDS = ["foreign-unknown-algo", "foreign-empty-integrity", "foreign-integrity-options", "foreign-extra-field",
                    "foreign-missing-optional", "foreign-float-size", "foreign-negative-size", "foreign-bad-base64",
                    "foreign-integrity-number", "foreign-key-mismatch-case",
+                   "foreign-multi-bad-strongest", "foreign-multi-short-strongest", "foreign-multi-bad-weakest",
                    # perfectly valid records in another tool's JSON spelling
                    "foreign-json-tabs", "foreign-json-spaces", "foreign-json-reordered", "foreign-json-ascii-escapes"]
 
@@ -123,6 +124,12 @@ def foreign_record(how, key):
         obj["size"] = 15.0
     elif how == "foreign-negative-size":
         obj["size"] = -1
+    elif how == "foreign-multi-bad-strongest":
+        obj["integrity"] = "sha512-@@@@ " + good
+    elif how == "foreign-multi-short-strongest":
+        obj["integrity"] = "sha512-AA== " + good
+    elif how == "foreign-multi-bad-weakest":
+        obj["integrity"] = good + " sha1-not*base64"
     elif how == "foreign-bad-base64":
         obj["integrity"] = "sha256-not*base64*at*all"
     elif how == "foreign-integrity-number":
